@@ -62,7 +62,8 @@ ModelBetween == Done => \A i \in 1..Len(out.wn) :
 Lat2(r) == RDiv(RMul(Q(2), r), Q(U))          \* doubled lattice coordinate of r cm-1
 OnLattice == Done /\ U > 0 =>
     /\ \A i \in 1..Len(out.wn) : RIsInt(Lat2(out.wn[i])) /\ RIsInt(RDiv(out.wnwA[i], Q(U)))
-    /\ \A k \in 1..Len(NatM) : (2 * NatM[k][1]) % U = 0 /\ (2 * NatM[k][2]) % U = 0
+    /\ \A k \in 1..Len(NatM) : /\ (2 * NatM[k][1]) % U = 0 /\ (2 * NatM[k][2]) % U = 0
+                              /\ ((2 * NatM[k][1]) \div U + (2 * NatM[k][2]) \div U) % 2 = 0   \* doubled centre of a cell is an integer
 NMn == [k \in 1..Len(NatM) |-> (2 * NatM[k][1]) \div U]
 NMx == [k \in 1..Len(NatM) |-> (2 * NatM[k][2]) \div U]
 TC2(bn) == [i \in 1..Len(bn.grid) |-> Lat2(bn.grid[i])[1]]
